@@ -81,6 +81,11 @@ fn kinds() -> Vec<Kind> {
         Kind { name: "map-callback", defs: "f = n => {GUARD}{STEP}", call: "map([{NEXT}], f)[0]", levels: 150 },
         Kind { name: "reduce-callback", defs: "f = n => {GUARD}{STEP}", call: "reduce([{NEXT}], (a, x) => f(x), 0)", levels: 150 },
         Kind { name: "filter-callback", defs: "f = n => {GUARD}{STEP}", call: "(len(filter([{NEXT}], x => f(x) >= 0)) - 1)", levels: 150 },
+        Kind { name: "count_by-callback", defs: "f = n => {GUARD}{STEP}", call: "(len(keys(count_by([{NEXT}], x => to_string(f(x))))) - 1)", levels: 150 },
+        Kind { name: "group_by-callback", defs: "f = n => {GUARD}{STEP}", call: "(len(keys(group_by([{NEXT}], x => to_string(f(x))))) - 1)", levels: 150 },
+        Kind { name: "every-callback", defs: "f = n => {GUARD}{STEP}", call: "(if every([{NEXT}], x => f(x) >= 0) then 0 else 1)", levels: 150 },
+        Kind { name: "some-callback", defs: "f = n => {GUARD}{STEP}", call: "(if some([{NEXT}], x => f(x) >= 0) then 0 else 1)", levels: 150 },
+        Kind { name: "where-callback", defs: "f = n => {GUARD}{STEP}", call: "(len([{NEXT}] where (x => f(x) >= 0)) - 1)", levels: 150 },
         Kind { name: "do-block", defs: "f = n => {GUARD}do {\n  m = {NEXT}\n  r = {STEPM}\n  return r\n}", call: "f(m)", levels: 300 },
         Kind { name: "record-wrapped", defs: "f = n => {GUARD}{STEP}", call: "{k: f({NEXT})}.k", levels: 300 },
         Kind { name: "into", defs: "f = n => {GUARD}{STEP}", call: "(({NEXT}) into f)", levels: 300 },
@@ -126,7 +131,7 @@ fn build(k: &Kind, w: Wrap, d: usize, bounded: bool) -> Prog {
     let expected = if bounded {
         Some(match k.name {
             // the callback's value is only tested, not accumulated
-            "filter-callback" => per_level,
+            "filter-callback" | "count_by-callback" | "group_by-callback" | "every-callback" | "some-callback" | "where-callback" => per_level,
             _ => per_level * call_levels as f64,
         })
     } else {
@@ -226,7 +231,7 @@ pub fn run(ctx: &Ctx, replay: Option<&J>) -> i32 {
     finish(
         ctx,
         "exploration",
-        "recursion grammar: 11 recursion kinds (self, mutual, via / map / reduce / filter callbacks, do-block body, record-wrapped, into, conditional arms, closure-returning-closure) x 5 nesting constructs (binary +, unary -, list literal + index, call argument, nested do-blocks around a helper defined after the function) x per-call nesting depth 1..32 (quick: 1,2,4,8,16,32) x {unbounded, bounded to a few hundred calls}; every program run twice through the release CLI under an 8 MiB stack limit; distinct = distinct programs",
+        "recursion grammar: 16 recursion kinds (self, mutual, via / map / reduce / filter / where / every / some / count_by / group_by callbacks, do-block body, record-wrapped, into, conditional arms, closure-returning-closure) x 5 nesting constructs (binary +, unary -, list literal + index, call argument, nested do-blocks around a helper defined after the function) x per-call nesting depth 1..32 (quick: 1,2,4,8,16,32) x {unbounded, bounded to a few hundred calls}; every program run twice through the release CLI under an 8 MiB stack limit; distinct = distinct programs",
         true,
         None,
     )
